@@ -582,14 +582,17 @@ pub fn process<I: BufRead, O: Write>(
                         });
                     }
                     let buf = &caps[3];
-                    let mut value = context.replace_all(buf);
                     if caps.get(2).is_none() {
+                        let value = context.replace_all(buf);
                         context.define(mcro, value);
                     } else {
+                        // The parameters are hidden while the macros used by the body are
+                        // replaced: a parameter may be named like a macro
+                        let mut value = buf.to_string();
                         let mut rex = format!("\\b{}\\(", mcro);
                         let params = caps.get(2).unwrap().as_str();
+                        let mut names = Vec::<&str>::new();
                         if !params.is_empty() {
-                            let mut names = Vec::<&str>::new();
                             for v in caps.get(2).unwrap().as_str().split(',') {
                                 let vx = v.trim();
                                 // An empty or repeated parameter name can't be a capture group
@@ -603,7 +606,9 @@ pub fn process<I: BufRead, O: Write>(
                                 }
                                 names.push(vx);
                                 let re = Regex::new(&format!("\\b{}\\b", vx)).unwrap();
-                                value = re.replace_all(&value, format!("$${}", vx)).to_string();
+                                value = re
+                                    .replace_all(&value, format!("\u{1}{}\u{1}", names.len() - 1))
+                                    .to_string();
                                 //rex += &format!("(?P<{}>[^,]*?),", vx);
                                 rex += &format!(
                                     r"(?P<{}>(?:[^,)(]|\((?:[^)(]|\((?:[^)(]|\((?:[^)(]|\([^)(]*\))*\))*\))*\))*),",
@@ -614,6 +619,10 @@ pub fn process<I: BufRead, O: Write>(
                             rex = rex.strip_suffix(',').unwrap().to_string();
                         }
                         rex += "\\)";
+                        value = context.replace_all(&value);
+                        for (i, vx) in names.iter().enumerate() {
+                            value = value.replace(&format!("\u{1}{}\u{1}", i), &format!("${}", vx));
+                        }
                         value = value.replace("##", ""); // Double hash
                         debug!("regex:{}", &rex);
                         context.define_ex(mcro, (rex, value));
